@@ -99,7 +99,7 @@ package bluemonday
 //@     invariant wfp(p) && p.initialized
 //@     invariant skipClosingTag <==> len(closingTagToSkipStack) > 0
 //@     invariant[C16] !outFailed
-//@     invariant[C05] tzCur.Type == 2 ==> mostRecentlyStartedToken == normalise(tzCur.Data)
+//@     invariant[C05] (tzCur.Type == 2 ==> mostRecentlyStartedToken == normalise(tzCur.Data)) && (tzCur.Type == 4 && isScriptStyle(normalise(tzCur.Data)) && !p.allowUnsafe ==> mostRecentlyStartedToken == normalise(tzCur.Data))
 //@     invariant[C06,textpres] !skipElementContent && skippingElementsCount == 0 && mostRecentlyStartedToken != "script" && mostRecentlyStartedToken != "style"
 //@     invariant[C06,textpres] stepOK(p, tzCur, outN, outLast)
 //@     invariant[C07,clean] !skipElementContent && skippingElementsCount == 0 && !skipClosingTag && mostRecentlyStartedToken != "script" && mostRecentlyStartedToken != "style" && (tzCur.Type == 99 || outN == 1)
